@@ -214,6 +214,51 @@ def check_limits_and_range(ctx):
                 ctx.violate(core.make_violation({'check': 'user-kernel-widths'}, f'fit with the user kernel {f}: widths {list(o.value[0]) if o.ok else o.brief()} instead of the file\'s {want}', {'file': f}))
             elif float(((numpy.asarray(o.value[3]) - ld) ** 2).sum()) > 2e-4 * max(1.0, float((ld ** 2).sum())):
                 ctx.violate(core.make_violation({'check': 'user-kernel-fit'}, f'fit with the user kernel {f} does not reproduce an exact combination of its isotherms', {'file': f}))
+    # a user kernel whose widths are written in angstrom: ascending numbers, but not ascending as text ('10' < '4')
+    fc = os.path.join(d1, 'kernel_angstrom.csv')
+    sel = list(raw.columns[[5, 20, 40, 55, 65, 75]])
+    ang = raw[sel].rename(columns={c_: f'{float(c_) * 10:g}' for c_ in sel})
+    ang.to_csv(fc)
+    want = [float(c_) * 10 for c_ in sel]
+    if not (min(want) < 10 <= max(want)):
+        raise core.HarnessError(f'angstrom kernel does not straddle 10: {want}')
+    Kf = kernel_matrix(p, fc)
+    ld = (Kf * numpy.array([0.02, 0.01, 0.03, 0.015, 0.005, 0.01])[:, None]).sum(axis=0)
+    for order in (0, 2):
+        psd_kernel._LOADED.clear()
+        o = core.call(psd_dft_kernel_fit, p, ld, fc, order, timeout=900)
+        ev += 1
+        nt += 1
+        if not o.ok:
+            ctx.violate(core.make_violation({'check': 'user-kernel-widths', 'kernel': 'angstrom'}, f'fit with a user kernel in angstrom {o.brief()}', {}))
+            continue
+        wg = numpy.asarray(o.value[0], dtype=float)
+        if order == 0 and list(wg) != want:
+            ctx.violate(core.make_violation({'check': 'user-kernel-widths', 'kernel': 'angstrom'},
+                                            f'fit with a user kernel whose widths are {want} (ascending): reported widths {list(wg)}', {}, want, list(wg)))
+        elif (numpy.diff(wg) <= 0).any() or (numpy.asarray(o.value[1]) < -1e-9).any() or (numpy.diff(numpy.asarray(o.value[2])) < -1e-9).any():
+            ctx.violate(core.make_violation({'check': 'user-kernel-order', 'kernel': 'angstrom'},
+                                            f'fit with a user kernel in angstrom (order {order}): widths not ascending / negative distribution / decreasing cumulative volume: '
+                                            f'{list(wg[:8])}', {}))
+        elif float(((numpy.asarray(o.value[3]) - ld) ** 2).sum()) > 2e-4 * max(1.0, float((ld ** 2).sum())):
+            ctx.violate(core.make_violation({'check': 'user-kernel-fit', 'kernel': 'angstrom'}, 'fit with the user kernel in angstrom does not reproduce an exact combination of its isotherms', {}))
+    # kernel_units given once must not become the defaults of later calls (and the caller's dict stays as it was)
+    fd = os.path.join(d2, 'kernel_cm3stp.csv')
+    (raw * 22.414).to_csv(fd)
+    psd_kernel._LOADED.clear()
+    first = core.call(pgc.psd_dft, iso(load), bspline_order=0, timeout=900)
+    ku = {'loading_unit': 'cm3(STP)'}
+    core.call(pgc.psd_dft, iso(load), kernel=fd, kernel_units=ku, bspline_order=0, timeout=900)
+    again = core.call(pgc.psd_dft, iso(load), bspline_order=0, timeout=900)
+    ev += 1
+    nt += 1
+    if ku != {'loading_unit': 'cm3(STP)'}:
+        ctx.violate(core.make_violation({'check': 'kernel-units-argument-mutated'}, f'psd_dft changed the kernel_units dictionary passed to it: {ku}', {}))
+    if first.ok and (not again.ok or not all(numpy.array_equal(numpy.asarray(again.value[k]), numpy.asarray(first.value[k])) for k in ('pore_distribution', 'kernel_loading', 'pore_volume_cumulative'))):
+        ratio = float(numpy.max(again.value['kernel_loading']) / numpy.max(first.value['kernel_loading'])) if again.ok else None
+        ctx.violate(core.make_violation({'check': 'kernel-units-leak-into-later-calls'},
+                                        f'psd_dft(iso) after a call with kernel_units={{"loading_unit": "cm3(STP)"}} differs from the same call before it '
+                                        f'({"fitted loading ratio %.4g" % ratio if ratio else again.brief()})', {}))
     psd_kernel._LOADED.clear()
     ctx.add('limits_range_user_kernels', ev, nt)
 
